@@ -4,6 +4,7 @@ from __future__ import annotations
 
 import ast
 
+from sa import reach
 from sa.cfg import CFG
 from sa.classes import (init_fields, init_param_of_field, prop_field_map, method_fields, written_keys, read_keys,
                         inner_records, self_name, fields_of)
@@ -274,9 +275,20 @@ def run(chk, repo, tier):
         td, fd = c_.methods.get('to_dict'), c_.methods.get('from_dict')
         if td is None or fd is None:
             continue
-        writes = [c for c in calls_in(td.node) if isinstance(c.func, ast.Attribute) and c.func.attr == 'to_dict'
-                  and not c.args and (not c.keywords or any(k.arg == 'orient' for k in c.keywords))
-                  and isinstance(c.func.value, ast.Attribute) and unparse(c.func.value).startswith('self.')]
+        # receivers are resolved through local temporaries (`ie = self._x; ie.to_dict()`)
+        cfg_td = CFG(td.node)
+        writes = []
+        for c in calls_in(td.node):
+            if isinstance(c.func, ast.Attribute) and c.func.attr == 'to_dict' and not c.args \
+                    and (not c.keywords or any(k.arg == 'orient' for k in c.keywords)):
+                recv = c.func.value
+                if isinstance(recv, ast.Name):
+                    nid = reach.node_containing(cfg_td, c)
+                    recv = reach.expand_expr(cfg_td, nid, recv) if nid is not None else recv
+                if isinstance(recv, ast.Attribute) and unparse(recv).startswith('self.'):
+                    c2 = ast.Call(func=ast.Attribute(value=recv, attr='to_dict', ctx=ast.Load()), args=[], keywords=c.keywords)
+                    c2.lineno = c.lineno
+                    writes.append(c2)
         reads = [c for c in calls_in(fd.node) if (dotted(c.func) or '').endswith(('DataFrame.from_dict', 'pd.DataFrame'))]
         # only receivers that are DataFrame-typed fields: annotated so in __init__ / create
         for w in writes:
@@ -337,11 +349,30 @@ def run(chk, repo, tier):
                                       f'database keys')
     pn = repl_nodes(('path',))
     chk.instance(H5, f'datainfo path blanked by {[n.text() for n in pn]}')
-    tests = [n for n in cfg.nodes.values() if n.kind == 'test' and 'is not None' in n.text() and 'di' in names(n.ast)]
+    # the branch on which the model has a datainfo: `<local bound to X.datainfo> is not None`, in any polarity
+    from sa import guards as G_
+
+    def has_datainfo(nid):
+        def atom(e):
+            if isinstance(e, ast.Compare) and len(e.ops) == 1 and isinstance(e.ops[0], (ast.Is, ast.IsNot)) \
+                    and isinstance(e.comparators[0], ast.Constant) and e.comparators[0].value is None:
+                src = e.left
+                if isinstance(src, ast.Name):
+                    vs = reach.values(cfg, nid, src.id) or []
+                    if not any(isinstance(a_, ast.Attribute) and a_.attr == 'datainfo' for _d, v in vs for a_ in ast.walk(v)):
+                        return None
+                elif not any(isinstance(a_, ast.Attribute) and a_.attr == 'datainfo' for a_ in ast.walk(src)):
+                    return None
+                return isinstance(e.ops[0], ast.IsNot)
+            return None
+        return atom
     ok = False
-    for t in tests:
+    for t in [n for n in cfg.nodes.values() if n.kind == 'test' and n.ast is not None]:
+        lab = G_.edge_label(t.ast, has_datainfo(t.id))
+        if lab is None:
+            continue
         for en in enc:
-            for s in cfg.succ(t.id, ['true']):
+            for s in cfg.succ(t.id, [lab]):
                 if pn and en.id not in cfg.reachable(s, avoid={n.id for n in pn}, labels_excluded=('exc', 'fexc')):
                     ok = True
     if not ok:
